@@ -407,7 +407,14 @@ func runC45(c *Ctx) {
 						as, ix = a, x
 					}
 				}
-				if as == nil || exitsLoopEarly(r.Body) {
+				skips := false
+				ast.Inspect(r.Body, func(m ast.Node) bool {
+					if br, isBr := m.(*ast.BranchStmt); isBr && br.Tok == token.CONTINUE {
+						skips = true
+					}
+					return true
+				})
+				if as == nil || skips || exitsLoopEarly(r.Body) {
 					return true
 				}
 				// result := make([]any, len(src)) with src == range operand; and the closure returns result
